@@ -3,6 +3,7 @@
 package main
 
 import (
+	"bufio"
 	"crypto/sha256"
 	"encoding/json"
 	"flag"
@@ -18,9 +19,11 @@ import (
 )
 
 type Summary struct {
-	Profile     string         `json:"profile"`
+	Prop        string         `json:"property"`
+	Profiles    []string       `json:"profiles"`
 	Seed        int64          `json:"seed"`
 	Histories   int            `json:"histories"`
+	Corpus      int            `json:"corpus_histories"`
 	Steps       int            `json:"steps"`
 	Distinct    int            `json:"distinct_nontrivial"`
 	OpHist      map[string]int `json:"op_histogram"`
@@ -28,6 +31,7 @@ type Summary struct {
 	SpecOK      int            `json:"steps_compared_with_spec"`
 	SpecSkipped int            `json:"steps_spec_skipped"`
 	Excl        map[string]int `json:"known_finding_exclusions"`
+	KnownLines  []string       `json:"known_finding_lines"`
 	Failures    []Failure      `json:"failures"`
 	Samples     []string       `json:"samples"`
 	WallS       float64        `json:"wall_s"`
@@ -39,136 +43,252 @@ type Failure struct {
 	Detail string `json:"detail"`
 }
 
+type KnownFinding struct {
+	Status     string   `json:"status"`
+	Name       string   `json:"name"`
+	Properties []string `json:"properties"`
+	What       string   `json:"what"`
+}
+
+func loadKnown(path string) map[string]KnownFinding {
+	out := map[string]KnownFinding{}
+	f, err := os.Open(path)
+	if err != nil {
+		return out
+	}
+	defer f.Close()
+	sc := bufio.NewScanner(f)
+	sc.Buffer(make([]byte, 1<<20), 1<<20)
+	for sc.Scan() {
+		var k KnownFinding
+		if json.Unmarshal(sc.Bytes(), &k) == nil && k.Status == "known" {
+			out[k.Name] = k
+		}
+	}
+	return out
+}
+
+func has(l []string, s string) bool {
+	for _, x := range l {
+		if x == s {
+			return true
+		}
+	}
+	return false
+}
+
+var (
+	outDir  string
+	maxFail int
+)
+
 func main() {
-	profile := flag.String("profile", "str", "generator profile")
+	prop := flag.String("prop", "", "property id (selects corpus entries and known findings)")
+	profiles := flag.String("profiles", "str", "comma-separated generator profiles")
 	seed := flag.Int64("seed", 1, "PRNG seed")
-	n := flag.Int("n", 200, "number of histories")
+	n := flag.Int("n", 200, "number of histories per profile")
 	workers := flag.Int("workers", 16, "parallel executors")
-	out := flag.String("out", "/verif/replays", "directory for replay files")
+	flag.StringVar(&outDir, "out", "/verif/replays", "directory for replay files")
 	replay := flag.String("replay", "", "replay file to re-run instead of generating")
-	maxFail := flag.Int("maxfail", 3, "stop after this many distinct failures")
+	flag.IntVar(&maxFail, "maxfail", 3, "report at most this many failures per kind")
+	known := flag.String("known", "/verif/KNOWN_FINDINGS.jsonl", "known findings file")
+	noCorpus := flag.Bool("nocorpus", false, "skip the corpus")
 	flag.Parse()
 	start := time.Now()
 
 	if *replay != "" {
 		os.Exit(doReplay(*replay))
 	}
-
-	prof, okp := hx.Profiles[*profile]
-	if !okp {
-		fmt.Fprintf(os.Stderr, "unknown profile %s\n", *profile)
-		os.Exit(2)
-	}
-	// histories are generated sequentially from one PRNG, executed in parallel
-	g := hx.NewGen(*seed, prof)
-	hs := make([]*hx.History, *n)
-	for i := range hs {
-		hs[i] = g.History(i)
-	}
-	traces := make([]*hx.HistTrace, len(hs))
-	var wg sync.WaitGroup
-	sem := make(chan struct{}, *workers)
-	for i := range hs {
-		wg.Add(1)
-		sem <- struct{}{}
-		go func(i int) {
-			defer wg.Done()
-			defer func() { <-sem }()
-			traces[i] = hx.Execute(hs[i])
-		}(i)
-	}
-	wg.Wait()
-
-	sum := Summary{Profile: *profile, Seed: *seed, Histories: len(hs),
-		OpHist: map[string]int{}, ErrHist: map[string]int{}, Excl: map[string]int{}}
-	var runnable []*hx.HistTrace
-	for _, t := range traces {
-		if t.Err != nil {
-			sum.Failures = append(sum.Failures, Failure{Kind: hx.KindHarness, Detail: t.Err.Error()})
-			continue
-		}
-		runnable = append(runnable, t)
-	}
-	ms, err := hx.RunModel(runnable)
-	if err != nil {
-		sum.Failures = append(sum.Failures, Failure{Kind: hx.KindHarness, Detail: err.Error()})
-		finish(&sum, start)
-		return
-	}
+	kf := loadKnown(*known)
+	sum := Summary{Prop: *prop, Seed: *seed, OpHist: map[string]int{}, ErrHist: map[string]int{}, Excl: map[string]int{}}
 	seen := map[[32]byte]bool{}
 	failKinds := map[string]int{}
-	for i, t := range runnable {
-		v := hx.Compare(t, ms[i])
-		nontrivial := false
-		var sig strings.Builder
-		for si, st := range t.Steps {
-			sum.Steps++
-			for _, op := range t.H.Steps[si].Ops {
-				sum.OpHist[op.Name]++
-			}
-			for _, part := range strings.Split(st.R, " ; ") {
-				f := strings.Fields(part)
-				cls := "ok"
-				if len(f) > 1 && f[0] == "err" {
-					cls = f[1]
-					if strings.HasPrefix(cls, "!sql:other") {
-						cls = "!sql:other"
-					}
-				}
-				sum.ErrHist[cls]++
-			}
-			if si > 0 && st.D != t.Steps[si-1].D && len(t.Steps[si-1].D) > 40 {
-				nontrivial = true // a state change on a non-empty database
-			}
-			sig.WriteString(strings.Join(st.Input, "|"))
-		}
-		h := sha256.Sum256([]byte(stripTimes(sig.String())))
-		if nontrivial && !seen[h] {
-			seen[h] = true
-			sum.Distinct++
-		}
-		for _, m := range ms[i] {
-			switch {
-			case m.V == "ok":
-				sum.SpecOK++
-			case strings.HasPrefix(m.V, "skip"):
-				sum.SpecSkipped++
-			}
-		}
-		for k, c := range v.Excl {
-			sum.Excl[k] += c
-		}
-		if len(sum.Samples) < 3 && len(t.Steps) > 0 {
-			var b []string
-			for _, st := range t.Steps[:min(len(t.Steps), 6)] {
-				b = append(b, strings.Join(st.Input, " / ")+" => "+st.R)
-			}
-			sum.Samples = append(sum.Samples, strings.Join(b, " ;; "))
-		}
-		if v.Kind != hx.KindNone {
-			if failKinds[v.Kind] >= *maxFail {
+
+	// 1. the corpus: witnesses of repaired defects and of known findings
+	if !*noCorpus {
+		for i, e := range hx.Corpus {
+			if *prop != "" && !has(e.Props, *prop) {
 				continue
 			}
-			failKinds[v.Kind]++
-			small := t.H
-			if v.Kind != hx.KindHarness {
-				small = hx.Shrink(t.H, v.Kind)
+			h := hx.CorpusHistory(i)
+			v, t := hx.CheckOne(h)
+			sum.Corpus++
+			account(&sum, t, nil, seen)
+			for k, c := range v.Excl {
+				sum.Excl[k] += c
 			}
-			v2, t2 := hx.CheckOne(small)
-			var ms2 []hx.ModelStep
-			if m2, err := hx.RunModel([]*hx.HistTrace{t2}); err == nil {
-				ms2 = m2[0]
+			if v.Kind != hx.KindNone {
+				var ms []hx.ModelStep
+				if m, err := hx.RunModel([]*hx.HistTrace{t}); err == nil {
+					ms = m[0]
+				}
+				path := writeReplay("corpus", int64(i), h.ID, v, t, ms, e.Name)
+				sum.Failures = append(sum.Failures, Failure{Kind: v.Kind, Replay: path, Detail: "corpus " + e.Name + ": " + v.Detail})
+				continue
 			}
-			if v2.Kind == hx.KindNone {
-				v2 = v
-				t2 = t
-				ms2 = ms[i]
+			if e.Known != "" && v.Excl[e.Known] > 0 {
+				if k, ok := kf[e.Known]; ok && (*prop == "" || has(k.Properties, *prop)) {
+					sum.KnownLines = append(sum.KnownLines, fmt.Sprintf("KNOWN-FINDING: property=%s %s (%s; witness corpus:%s)", pick(*prop, k.Properties), k.What, k.Name, e.Name))
+				}
 			}
-			path := writeReplay(*out, *profile, *seed, t.H.ID, v2, t2, ms2)
-			sum.Failures = append(sum.Failures, Failure{Kind: v2.Kind, Replay: path, Detail: v2.Detail})
+		}
+	}
+
+	// 2. generated histories
+	for _, pname := range strings.Split(*profiles, ",") {
+		if pname == "" {
+			continue
+		}
+		prof, okp := hx.Profiles[pname]
+		if !okp {
+			fmt.Fprintf(os.Stderr, "unknown profile %s\n", pname)
+			os.Exit(2)
+		}
+		sum.Profiles = append(sum.Profiles, pname)
+		g := hx.NewGen(*seed, prof)
+		hs := make([]*hx.History, *n)
+		for i := range hs {
+			hs[i] = g.History(i)
+		}
+		traces := make([]*hx.HistTrace, len(hs))
+		var wg sync.WaitGroup
+		sem := make(chan struct{}, *workers)
+		for i := range hs {
+			wg.Add(1)
+			sem <- struct{}{}
+			go func(i int) {
+				defer wg.Done()
+				defer func() { <-sem }()
+				traces[i] = hx.Execute(hs[i])
+			}(i)
+		}
+		wg.Wait()
+		sum.Histories += len(hs)
+		var runnable []*hx.HistTrace
+		for _, t := range traces {
+			if t.Err != nil {
+				sum.Failures = append(sum.Failures, Failure{Kind: hx.KindHarness, Detail: t.Err.Error()})
+				continue
+			}
+			runnable = append(runnable, t)
+		}
+		ms, err := hx.RunModel(runnable)
+		if err != nil {
+			sum.Failures = append(sum.Failures, Failure{Kind: hx.KindHarness, Detail: err.Error()})
+			continue
+		}
+		for i, t := range runnable {
+			v := hx.Compare(t, ms[i])
+			account(&sum, t, ms[i], seen)
+			for k, c := range v.Excl {
+				sum.Excl[k] += c
+				if _, listed := kf[k]; !listed {
+					v.Kind = "unlisted-exclusion"
+					v.Detail = "the model excludes a step under a finding that KNOWN_FINDINGS.jsonl does not list: " + k
+				}
+			}
+			if v.Kind != hx.KindNone {
+				if failKinds[v.Kind] >= maxFail {
+					continue
+				}
+				failKinds[v.Kind]++
+				small := t.H
+				if v.Kind != hx.KindHarness && v.Kind != "unlisted-exclusion" {
+					small = hx.Shrink(t.H, v.Kind)
+				}
+				v2, t2 := hx.CheckOne(small)
+				var ms2 []hx.ModelStep
+				if m2, err := hx.RunModel([]*hx.HistTrace{t2}); err == nil {
+					ms2 = m2[0]
+				}
+				if v2.Kind == hx.KindNone {
+					v2, t2, ms2 = v, t, ms[i]
+				}
+				path := writeReplay(pname, *seed, t.H.ID, v2, t2, ms2, "")
+				sum.Failures = append(sum.Failures, Failure{Kind: v2.Kind, Replay: path, Detail: v2.Detail})
+			}
+		}
+	}
+	// known findings met by the generated histories are reported once each
+	names := make([]string, 0, len(sum.Excl))
+	for k := range sum.Excl {
+		names = append(names, k)
+	}
+	sort.Strings(names)
+	for _, name := range names {
+		k, ok := kf[name]
+		if !ok || (*prop != "" && !has(k.Properties, *prop)) {
+			continue
+		}
+		line := fmt.Sprintf("KNOWN-FINDING: property=%s %s (%s", pick(*prop, k.Properties), k.What, k.Name)
+		dup := false
+		for _, l := range sum.KnownLines {
+			if strings.HasPrefix(l, line) {
+				dup = true
+			}
+		}
+		if !dup {
+			sum.KnownLines = append(sum.KnownLines, line+fmt.Sprintf("; met %d times in generated histories)", sum.Excl[name]))
 		}
 	}
 	finish(&sum, start)
+}
+
+func pick(prop string, props []string) string {
+	if prop != "" {
+		return prop
+	}
+	if len(props) > 0 {
+		return props[0]
+	}
+	return "?"
+}
+
+// account adds one executed history to the coverage counters.
+func account(sum *Summary, t *hx.HistTrace, ms []hx.ModelStep, seen map[[32]byte]bool) {
+	nontrivial := false
+	var sig strings.Builder
+	for si, st := range t.Steps {
+		sum.Steps++
+		for _, op := range t.H.Steps[si].Ops {
+			sum.OpHist[op.Name]++
+		}
+		for _, part := range strings.Split(st.R, " ; ") {
+			f := strings.Fields(part)
+			cls := "ok"
+			if len(f) > 1 && f[0] == "err" {
+				cls = f[1]
+				if strings.HasPrefix(cls, "!sql:other") {
+					cls = "!sql:other"
+				}
+			}
+			sum.ErrHist[cls]++
+		}
+		if si > 0 && st.D != t.Steps[si-1].D && len(t.Steps[si-1].D) > 40 {
+			nontrivial = true // a state change on a non-empty database
+		}
+		sig.WriteString(strings.Join(st.Input, "|"))
+	}
+	h := sha256.Sum256([]byte(stripTimes(sig.String())))
+	if nontrivial && !seen[h] {
+		seen[h] = true
+		sum.Distinct++
+	}
+	for _, m := range ms {
+		switch {
+		case m.V == "ok":
+			sum.SpecOK++
+		case strings.HasPrefix(m.V, "skip"):
+			sum.SpecSkipped++
+		}
+	}
+	if len(sum.Samples) < 3 && len(t.Steps) > 2 {
+		var b []string
+		for _, st := range t.Steps[:min(len(t.Steps), 5)] {
+			b = append(b, strings.Join(st.Input, " / ")+" => "+st.R)
+		}
+		sum.Samples = append(sum.Samples, strings.Join(b, " ;; "))
+	}
 }
 
 func min(a, b int) int {
@@ -204,6 +324,7 @@ type ReplayFile struct {
 	Profile string   `json:"profile"`
 	Seed    int64    `json:"seed"`
 	History int      `json:"history"`
+	Corpus  string   `json:"corpus,omitempty"`
 	Kind    string   `json:"kind"`
 	Detail  string   `json:"detail"`
 	Keep    [][]int  `json:"keep"`
@@ -212,21 +333,21 @@ type ReplayFile struct {
 	Rerun   string   `json:"rerun"`
 }
 
-func writeReplay(dir, profile string, seed int64, hid int, v hx.Verdict, t *hx.HistTrace, ms []hx.ModelStep) string {
-	_ = os.MkdirAll(dir, 0o755)
-	rf := ReplayFile{Profile: profile, Seed: seed, History: hid, Kind: v.Kind, Detail: v.Detail, Keep: t.H.Keep()}
+func writeReplay(profile string, seed int64, hid int, v hx.Verdict, t *hx.HistTrace, ms []hx.ModelStep, corpus string) string {
+	_ = os.MkdirAll(outDir, 0o755)
+	rf := ReplayFile{Profile: profile, Seed: seed, History: hid, Kind: v.Kind, Detail: v.Detail, Keep: t.H.Keep(), Corpus: corpus}
 	for _, st := range t.Steps {
 		rf.Input = append(rf.Input, st.Input...)
 	}
 	rf.Trace = hx.Describe(t, ms)
-	path := filepath.Join(dir, fmt.Sprintf("%s-seed%d-h%d-%s.json", profile, seed, hid, v.Kind))
+	path := filepath.Join(outDir, fmt.Sprintf("%s-seed%d-h%d-%s.json", profile, seed, hid, v.Kind))
 	rf.Rerun = fmt.Sprintf("/verif/build/diffrun -replay %s", path)
 	b, _ := json.MarshalIndent(rf, "", " ")
 	_ = os.WriteFile(path, b, 0o644)
 	return path
 }
 
-// doReplay re-executes the recorded model input against the current tree.
+// doReplay re-executes the recorded history against the current tree.
 func doReplay(path string) int {
 	b, err := os.ReadFile(path)
 	if err != nil {
@@ -238,12 +359,25 @@ func doReplay(path string) int {
 		fmt.Fprintln(os.Stderr, err)
 		return 2
 	}
-	full, okr := hx.Regenerate(rf.Profile, rf.Seed, rf.History)
-	if !okr {
-		fmt.Fprintln(os.Stderr, "cannot regenerate history: unknown profile", rf.Profile)
-		return 2
+	var h *hx.History
+	if rf.Corpus != "" {
+		for i, e := range hx.Corpus {
+			if e.Name == rf.Corpus {
+				h = hx.CorpusHistory(i)
+			}
+		}
+		if h == nil {
+			fmt.Fprintln(os.Stderr, "unknown corpus entry", rf.Corpus)
+			return 2
+		}
+	} else {
+		full, okr := hx.Regenerate(rf.Profile, rf.Seed, rf.History)
+		if !okr {
+			fmt.Fprintln(os.Stderr, "cannot regenerate history: unknown profile", rf.Profile)
+			return 2
+		}
+		h = full.Select(rf.Keep)
 	}
-	h := full.Select(rf.Keep)
 	v, t := hx.CheckOne(h)
 	var ms []hx.ModelStep
 	if m, err := hx.RunModel([]*hx.HistTrace{t}); err == nil {
@@ -254,11 +388,6 @@ func doReplay(path string) int {
 		fmt.Println("REPLAY: no disagreement on the current tree")
 		return 0
 	}
-	keys := make([]string, 0)
-	for k := range v.Excl {
-		keys = append(keys, k)
-	}
-	sort.Strings(keys)
 	fmt.Printf("REPLAY: %s\n%s\n", v.Kind, v.Detail)
 	return 1
 }
